@@ -119,6 +119,19 @@ def random_cases(run: lib.Run, n: int):
     env0 = {"subject": {"id": "u"}, "action": "read", "resource": {"type": "doc", "id": "1"}, "context": {"n": {"real": 5}}}
     for c in odd:
         yield c, env0, f"odd:{c!r}"
+    # nesting far deeper than any hand-written document (generated policies fold lists pairwise): the meaning of and/or/not does not
+    # depend on the depth at which they stand
+    for depth in (31, 32, 33, 34, 65, 120):
+        for li, leaf in enumerate((True, False, {"==": [1, 1]}, {"<": ["a", 1]}, {"==": [{"attr": "context.n.real"}, 5]})):
+            c = leaf
+            for _ in range(depth):
+                c = {"not": c}
+            yield c, env0, f"deep:not^{depth}:{li}"
+            for op in ("and", "or"):
+                c = leaf
+                for k in range(depth):
+                    c = {op: [c, op == "and"] if k % 2 else [op == "and", c]}
+                yield c, env0, f"deep:{op}^{depth}:{li}"
 
 
 def run_cases(run: lib.Run, audit: dict, scale: int = 1):
@@ -193,7 +206,13 @@ def through_guard(run: lib.Run, batch: list, answers: list) -> None:
             continue
         pol = {"algorithm": "deny-overrides", "rules": [{"id": "c", "effect": "permit", "actions": ["read"], "resource": {"type": "doc"}, "condition": cond}]}
         req = {"sid": "u", "roles": [], "sattrs": {}, "action": "read", "rtype": "doc", "rid": "1", "rattrs": {}, "ctx": ctx}
-        got = real.run_guard(pol, req, {"strict": bool(env.get("__strict_types__"))})
+        # with and without an audit sink / a decision cache attached: what the operators see does not depend on who else looks at the request
+        extra = [{}, {"logger": True}, {}][picked % 3]
+        if picked % 3 == 2:
+            from rbacx.core.cache import DefaultInMemoryCache as _Cache
+            got = real.run_guard(pol, req, {"strict": bool(env.get("__strict_types__"))}, cache=_Cache(8))
+        else:
+            got = real.run_guard(pol, req, {"strict": bool(env.get("__strict_types__")), **extra})
         want = {True: ("permit", "matched"), False: ("deny", "condition_mismatch"), "mismatch": ("deny", "condition_type_mismatch")}[m]
         picked += 1
         run.count("cell-through-guard")
